@@ -947,6 +947,26 @@ def _fs_obs(store, kind):
     return d
 
 
+def _refusal(store, which, loader_cls, fallback=True):
+    """What a TypeError out of a load means, decided WITHOUT reading its message: unpickle (stdlib, not the library's
+    `_load`) the file the load addresses -- `.pckl` first, then (with fallback) `.cpckl` -- and compare the class of what
+    is in it with the class of the loading node: a complete pickle of ANOTHER class = the load was refused for the
+    class (`classMismatch`); anything else = the file could not be read (`corrupt`)."""
+    import pickle
+
+    files = store.files_of(which)
+    for slot in ("pckl", "cpckl") if fallback else ("pckl",):
+        path = files[slot]
+        if os.path.isfile(path):
+            try:
+                with open(path, "rb") as fh:
+                    inst = pickle.load(fh)
+            except Exception:  # noqa: BLE001
+                return "corrupt"
+            return "classMismatch" if type(inst) is not loader_cls else "corrupt"
+    return "corrupt"
+
+
 def _load_into(node, store, by_name=False, **more):
     """(result token, exception name); `by_name`: address the store by file name (a foreign node has another
     default location)"""
@@ -956,14 +976,13 @@ def _load_into(node, store, by_name=False, **more):
         if store.backend is not None:
             kw["backend"] = store.backend
     kw = {**kw, **more}
+    loader_cls = type(node)  # (a load never changes the class of the node)
     try:
         node.load(**kw)
     except FileNotFoundError:
         return "notFound", "FileNotFoundError"
-    except TypeError as e:
-        if "cannot load, as it has type" in str(e):
-            return "classMismatch", "TypeError"
-        return "corrupt", "TypeError"
+    except TypeError:
+        return _refusal(store, "main", loader_cls, more.get("cloudpickle_fallback", True)), "TypeError"
     except Exception as e:  # noqa: BLE001
         return "corrupt", type(e).__name__
     return f"loaded:{_ver(node)}", None
@@ -978,9 +997,8 @@ def _reopen(kind, store):
             n = _mk_graph(kind, autoload=True, backend=store.backend)
         except FileNotFoundError:
             return _mk_graph(kind), "notFound", "FileNotFoundError"
-        except TypeError as e:
-            tok = "classMismatch" if "cannot load, as it has type" in str(e) else "corrupt"
-            return _mk_graph(kind), tok, "TypeError"
+        except TypeError:
+            return _mk_graph(kind), _refusal(store, "main", _graph_class(kind)), "TypeError"
         except Exception as e:  # noqa: BLE001
             return _mk_graph(kind), "corrupt", type(e).__name__
         v = _ver(n)
@@ -1139,8 +1157,8 @@ def _store_probe(kind, store, which):
         return f"loaded:{_ver(ch)}", None
     except FileNotFoundError:
         return "notFound", "FileNotFoundError"
-    except TypeError as e:
-        return ("classMismatch" if "cannot load, as it has type" in str(e) else "corrupt"), "TypeError"
+    except TypeError:
+        return _refusal(store, which, _graph_class(kind) if which == "rec" else nc.Base), "TypeError"
     except Exception as e:  # noqa: BLE001
         return "corrupt", type(e).__name__
 
